@@ -253,7 +253,12 @@ func runC08(r *Run) {
 		}
 		mfs["page1.vuego"] = &fstest.MapFile{Data: []byte(page(fm1))}
 		mfs["page2.vuego"] = &fstest.MapFile{Data: []byte(page(fm2))}
+		// the two documented ways to build the engine over a file system read the same configuration
 		tpls := []vuego.Template{vuego.NewFS(mfs)}
+		if rr.Intn(3) == 0 {
+			tpls = []vuego.Template{vuego.New(vuego.WithFS(mfs))}
+			r.Count("constructor:New(WithFS)")
+		}
 		loaded := []bool{false}
 		var ops []c08Op
 		var obs []Obs
